@@ -720,3 +720,5 @@ seed("c20-xsection-guard-removed", "C20", ME2, '        if nodex >= self.nx { pa
 seed("c20-xsection-guard-wrong-dim", "C20", ME2, '        if nodex >= self.nx { panic!( "Mesh2D error: cross_section_xnode range error." ); }', '        if nodex >= self.ny { panic!( "Mesh2D error: cross_section_xnode range error." ); }', "reject-via/mesh2d::Mesh2D<T>::cross_section_xnode")
 seed("c20-trapezium-var-guard-removed", "C20", ME2, '        if var >= self.nvars { panic!( "Mesh2D trapezium: index larger than # variables." ); }\n', "", "reject/mesh2d::Mesh2D<f64>::trapezium/var", "the original defect")
 seed("c20-mesh1d-trapezium-var-guard-removed", "C20", "src/mesh1d.rs", '        if var >= self.nvars { panic!( "Mesh1D trapezium: index larger than # variables." ); }\n', "", "reject/mesh1d::Mesh1D<f64, f64>::trapezium/var", "the original defect")
+seed("c03-normp-inf-unhandled", "C03", "src/matrix/functions.rs", "        if p.is_infinite() { return self.norm_max(); } // the limit p -> inf ( the formula below gives 1 for every matrix )\n", "", "norm-orientation/norm_p/inf", "the original defect")
+seed("c03-normp-inf-wrong-norm", "C03", "src/matrix/functions.rs", "        if p.is_infinite() { return self.norm_max(); }", "        if p.is_infinite() { return self.norm_inf(); }", "norm-orientation/norm_p/inf", "norm_inf is the max row sum, not the entrywise max")
